@@ -3,7 +3,8 @@ import copy, io, itertools, json, random
 from .. import core, schemagen as sg, gen
 
 SRCFACTS = ["schema"]
-RULE = ("schemas from harness/schemagen.py whose top is a record; every subset of their nested named types (all subsets for "
+RULE = ("schemas from harness/schemagen.py whose top is a record, a top-level union (record branches + dict-form enum / fixed "
+        "/ array / map branches + primitives) or an array / map of a record (raw vs parsed only); every subset of their nested named types (all subsets for "
         "<= 4 candidates, 6 random ones otherwise) split off, made standalone (full name spelled out) and parsed first, in "
         "dependency order, against ONE shared named_schemas dict, then the parent with those definitions replaced by "
         "references; per form (raw / parsed / piecewise) every public operation on 2 generated data: schemaless_writer, "
@@ -12,9 +13,10 @@ RULE = ("schemas from harness/schemagen.py whose top is a record; every subset o
         "non-trivial = distinct (schema, subset)")
 TRUSTED = ["harness/gen.py DataGen: conforming data", "harness/props/c12.py split(): the syntactic rewriting of a nested "
            "definition into a standalone document plus a reference"]
-ASSUMPTIONS = ["the parent of a piecewise-parsed schema is a record (it then carries the shared dictionary in its "
-               "__named_schemas marker); a parent without a record at the top (array / map of references) is returned "
-               "unmarked by parse_schema and cannot carry the dictionary into the other operations - outside the check",
+ASSUMPTIONS = ["in the piecewise form the references to separately parsed types sit inside a record (the record carries the "
+               "shared dictionary in its __named_schemas marker): the parent is a record or a top-level union whose split-off "
+               "types are nested in its record branches; a parent without a record at the top (array / map) is returned "
+               "unmarked by parse_schema and cannot carry the dictionary - for those tops only raw and parsed are compared",
                "a null-namespace type nested in a non-null namespace is never split off (it cannot be referred to by name "
                "from there)",
                "all text is printable ASCII without double quote and backslash"]
@@ -41,8 +43,8 @@ def candidates(s):
     out = []
     defs = sg.named_defs(s)
     for p, n, ns, top in defs:
-        if p == ():
-            continue
+        if p == () or (isinstance(s, list) and len(p) == 1):
+            continue            # the top itself / a branch of a top-level union stays (a bare reference there carries no table)
         sp, full = sg.spec_fullname(ns, n)
         if "." not in full and ns:
             continue
@@ -175,11 +177,26 @@ def run(ctx):
     work = []          # (schema, chosen subset description, pieces, parent)
     schemas = []
     tries = 0
+    kinds = {}
     while len(schemas) < nschemas and tries < nschemas * 20:
         tries += 1
-        s, g = sg.gen_schema(rng, top_union_ok=False, int_float_defaults=False)
-        if not (isinstance(s, dict) and s.get("type") == "record"):
-            continue
+        want = rng.choice(["record"] * 6 + ["union"] * 3 + ["container"])
+        g = sg.Gen(rng, budget=rng.choice([6, 10, 16, 24]), int_float_defaults=False)
+        if want == "record":
+            s = g.record("", rng.choice([1, 2, 3, 4]))
+        elif want == "union":
+            # a top-level union: record branches, dict-form non-record branches (they never carry the parsed marker), primitives
+            s = [g.record("", rng.choice([2, 3])) for _ in range(rng.choice([1, 1, 2]))]
+            s += [rng.choice([g.enum, g.fixed])("") for _ in range(rng.choice([0, 1, 1, 2]))]
+            extra = rng.sample(["null", "int", "string", "double"], rng.choice([0, 1, 2]))
+            if rng.random() < 0.5:
+                extra.append({"type": "array", "items": "long"} if rng.random() < 0.5 else {"type": "map", "values": "string"})
+            for x in extra:                      # the named members keep their order (later ones may refer to earlier ones)
+                s.insert(rng.randrange(len(s) + 1), x)
+        else:
+            rec = g.record("", rng.choice([1, 2, 3]))
+            s = {"type": "array", "items": rec} if rng.random() < 0.5 else {"type": "map", "values": rec}
+        kinds[want] = kinds.get(want, 0) + 1
         schemas.append(s)
     nsplit = 0
     for s in schemas:
@@ -188,6 +205,10 @@ def run(ctx):
             subsets = [list(c) for r in range(1, len(cands) + 1) for c in itertools.combinations(cands, r)]
         else:
             subsets = [rng.sample(cands, rng.randrange(1, min(len(cands), 5) + 1)) for _ in range(6)]
+        if isinstance(s, dict) and s.get("type") in ("array", "map"):
+            # no record at the top: the parsed form carries no table, so only raw vs parsed are compared
+            work.append((s, [], None, None))
+            continue
         for sub in subsets:
             sp = split(s, sub)
             if sp is None:
@@ -205,6 +226,11 @@ def run(ctx):
                          {"type": "record", "name": "n.B", "fields": [{"name": "c", "type": {"type": "array", "items": "n.C"}}]}],
         {"type": "record", "name": "n.A", "fields": [{"name": "b", "type": "n.B"}, {"name": "c2", "type": ["null", "C"]}]}))
 
+    # a top-level union: record branch referring to a separately parsed type + a dict-form enum branch (unmarked)
+    work.append(([{"type": "record", "name": "R", "fields": [{"name": "c", "type": {"type": "record", "name": "Child", "fields": [{"name": "x", "type": "int"}]}}]},
+                  {"type": "enum", "name": "E", "symbols": ["A", "B"]}, "null"],
+                 ["Child"], [{"type": "record", "name": "Child", "fields": [{"name": "x", "type": "int"}]}],
+                 [{"type": "record", "name": "R", "fields": [{"name": "c", "type": "Child"}]}, {"type": "enum", "name": "E", "symbols": ["A", "B"]}, "null"]))
     # witness: a recursive record R and an enum b.R parsed separately (io/parser.py tests `schema_name in field["type"]`,
     # a substring test when the field type is the reference string "b.R")
     work.append(({"type": "record", "name": "R", "fields": [{"name": "n", "type": ["null", "R"]},
@@ -215,7 +241,7 @@ def run(ctx):
     # ---- model: canonical form of the piecewise parse, idempotence
     exprs = []
     for s, sub, pieces, parent in work:
-        exprs.append("show_piecewise_canon [%s]" % "; ".join(sg.to_coq(x) for x in pieces + [parent]))
+        exprs.append("show_piecewise_canon [%s]" % "; ".join(sg.to_coq(x) for x in (pieces or []) + [parent if parent is not None else s]))
     for s in schemas:
         exprs.append("show_idem " + sg.to_coq(s))
     out = core.coq_eval(exprs, IMPORTS, ctx.workdir, tag="pw", shard=60 if ctx.quick() else 150)
@@ -229,16 +255,29 @@ def run(ctx):
         named = {}
         parsed = parse_schema(copy.deepcopy(s), named)
         again = parse_schema(parsed)
-        stripped = {k: v for k, v in parsed.items() if k not in ("__fastavro_parsed", "__named_schemas")}
+
+        def unmark(x):
+            if isinstance(x, list):
+                return [unmark(m) for m in x]
+            if isinstance(x, dict):
+                return {k: v for k, v in x.items() if k not in ("__fastavro_parsed", "__named_schemas")}
+            return x
+        stripped = unmark(parsed)
         named2 = {}
         re = outcome(lambda: parse_schema(copy.deepcopy(stripped), named2))
-        ok = again is parsed and re[0] == "ok" and sorted(named2) == sorted(named) and \
-            to_parsing_canonical_form(re[1]) == to_parsing_canonical_form(parsed) and \
-            {k: v for k, v in re[1].items() if not k.startswith("__")} == stripped
+        if isinstance(parsed, list):
+            same = len(again) == len(parsed) and all(a is b or (not isinstance(b, dict)) or "__fastavro_parsed" not in b
+                                                      for a, b in zip(again, parsed)) and unmark(again) == stripped
+        elif isinstance(parsed, dict) and "__fastavro_parsed" in parsed:
+            same = again is parsed
+        else:
+            same = unmark(again) == stripped
+        ok = same and re[0] == "ok" and sorted(named2) == sorted(named) and \
+            to_parsing_canonical_form(re[1]) == to_parsing_canonical_form(parsed) and unmark(re[1]) == stripped
         if not ok:
-            ctx.violation("corr:idempotent", dict(schema=s, schema_json=json.dumps(s)), impl=dict(same_object=again is parsed, reparse=str(re)[:300]),
+            ctx.violation("corr:idempotent", dict(schema=s, schema_json=json.dumps(s)), impl=dict(same_object=same, reparse=str(re)[:300]),
                           model="parse_schema(parsed) is parsed; the unmarked parsed schema parses to the same schema",
-                          signature="C12:parse_schema:idempotence:" + ("marked-schema-not-returned" if again is not parsed else "unmarked-reparse-differs"))
+                          signature="C12:parse_schema:idempotence:" + ("marked-schema-not-returned" if not same else "unmarked-reparse-differs"))
         if mi != "true,true":
             ctx.violation("corr:idempotent", dict(schema=s, schema_json=json.dumps(s)), impl="holds" if ok else "fails", model=mi,
                           signature="C12:model:idempotence-check-false", found_input=False)
@@ -251,6 +290,17 @@ def run(ctx):
         cs = dict(schema=s, schema_json=json.dumps(s), split_off=sub, pieces_json=json.dumps(pieces), parent_json=json.dumps(parent))
         named = {}
         parsed = parse_schema(copy.deepcopy(s), named)
+        if pieces is None:
+            dg = gen.DataGen(data_rng, dict(named), hints=False)
+            data = []
+            for _ in range(2):
+                try:
+                    data.append(dg.datum(parsed))
+                except Exception:
+                    pass
+            r_raw = ops(copy.deepcopy(s), data)
+            compare(ctx, "raw", r_raw, "parsed", ops(parsed, data, r_raw), cs)
+            continue
         shared = {}
         st = outcome(lambda: [parse_schema(copy.deepcopy(x), shared) for x in pieces] and parse_schema(copy.deepcopy(parent), shared))
         if st[0] != "ok":
@@ -276,6 +326,7 @@ def run(ctx):
             ctx.violation("corr:canon-piecewise", cs, impl=ic, model=mp, signature="C12:to_parsing_canonical_form:piecewise:differs-from-model",
                           found_input=False)
     ctx.notes["schemas"] = len(schemas)
+    ctx.notes["top_kinds"] = kinds
     ctx.notes["splits"] = nsplit
     if work:
         ctx.sample(dict(schema=work[0][0], split_off=work[0][1], pieces=work[0][2], parent=work[0][3]))
